@@ -189,6 +189,16 @@ def positions(typ, x, rel):
         return out
     if peer is None:
         return out
+    # next to a boolean constant that decides the operator on its own: the other operand is
+    # still part of the filter (validated, translated or refused)
+    atom = ("cmp", "eq", peer, x)
+    for cname, cst, op in (("false-and", "false", "and"), ("true-or", "true", "or"),
+                           ("true-and", "true", "and"), ("false-or", "false", "or")):
+        out.append((cname + "-right", ("bool", op, T.lit("bool", cst), atom)))
+        out.append((cname + "-left", ("bool", op, atom, T.lit("bool", cst))))
+    out.append(("not-true-and", ("bool", "and", ("un", "not", T.lit("bool", "true")), atom)))
+    out.append(("nested-false-and", ("bool", "or", ("cmp", "eq", I("rating") if rel else I("a"), T.I(1)),
+                                     ("bool", "and", T.lit("bool", "false"), atom))))
     out.append(("cmp-right", ("cmp", "eq", peer, x)))
     out.append(("cmp-left", ("cmp", "ne", x, peer)))
     out.append(("lt-right", ("cmp", "lt", peer, x)))
@@ -598,9 +608,14 @@ def run(ctx):
             idx += 1
             if not ctx.mine(idx):
                 continue
+            # next to a deciding constant an engine layer may legitimately fold the operand away
+            # AFTER it was translated: only the outcome (refusal / exception) is judged there
+            folded = pos.split("-right")[0].split("-left")[0] in ("false-and", "true-or", "true-and", "false-or") \
+                or pos in ("not-true-and", "nested-false-and")
             judge(ctx, kname, pos, t, backend, rel,
                   unknown_field=kname.split(":")[0] in ("ident-unknown", "path-unknown") or
-                  (kname.startswith("ident-orm-unknown") and backend in ("sqlalchemy-orm", "django")))
+                  (kname.startswith("ident-orm-unknown") and backend in ("sqlalchemy-orm", "django")),
+                  check_leaves=not folded)
             if idx % 701 == 0:
                 ctx.sample({"kind": kname, "position": pos, "backend": backend,
                             "filter": to_text(t)})
